@@ -21,7 +21,8 @@ Open Scope Z_scope.
 (* ---- values ---- *)
 Definition part := (Z * list Z)%type.               (* (oid, canonical contents) *)
 (* shape: 0 scalar, 1 list, 2 dict, 3 set, 4 tuple (tuple object, inner list, scalar),
-   5 a TraitListObject (fires the "<name>_items" event when mutated; 1 is a plain Python list), 9 error *)
+   5 a TraitListObject, 6 a TraitDictObject (they and the set fire the "<name>_items" event when mutated;
+   1 / 2 are a plain Python list / dict), 9 error *)
 Record value := mkV { v_shape : Z; v_parts : list part }.
 
 (* ---- trait definitions ---- *)
@@ -36,7 +37,8 @@ Inductive kind :=
 | KMethod      (* CALLABLE_DEFAULT_VALUE: List(Int) with a _name_default method: counted *)
 | KTuple       (* CALLABLE_DEFAULT_VALUE: Tuple(List(Int), Int): BaseTuple._get_default_value *)
 | KUnion       (* CALLABLE_DEFAULT_VALUE: Union(List(Int), Int): Union._get_default_value *)
-| KEvent.      (* "<name>_items" / trait_added event traits (never read) *)
+| KEvent       (* "<name>_items" / trait_added event traits (never read) *)
+| KMethodInt.  (* CALLABLE_DEFAULT_VALUE: Int with a _name_default method returning an int: counted, validated *)
 
 Record tdef := mkT {
   t_kind : kind;
@@ -68,6 +70,7 @@ Record world := mkW {
 (* names: n >= 0 declared traits, n + 1000 the "<n>_items" trait, -1 trait_added *)
 Definition items_name (n : Z) : Z := n + 1000.
 Definition trait_added : Z := -1.
+Definition any_name : Z := -2.        (* on_trait_change(handler) without a name: the object's own notifier list *)
 
 Inductive op :=
 | Read (i n : Z)                                   (* getattr(obj_i, n) *)
@@ -115,17 +118,18 @@ Fixpoint zlist_eqb (a b : list Z) : bool :=
    (value, next fresh oid afterwards). *)
 Definition default_value (t : tdef) (next : Z) : value * Z :=
   match t_kind t with
-  | KConst => (mkV 0 [(0, t_content t)], next)                     (* result = trait->default_value *)
+  | KConst | KMethodInt => (mkV 0 [(0, t_content t)], next)         (* trait->default_value / the method's int *)
   | KListCopy | KFactory => (mkV 1 [(next, t_content t)], next + 1)   (* a new list object per call *)
   | KTraitList | KMethod | KUnion => (mkV 5 [(next, t_content t)], next + 1)
-  | KDictCopy | KTraitDict => (mkV 2 [(next, t_content t)], next + 1)
+  | KDictCopy => (mkV 2 [(next, t_content t)], next + 1)
+  | KTraitDict => (mkV 6 [(next, t_content t)], next + 1)
   | KTraitSet => (mkV 3 [(next, t_content t)], next + 1)
   | KTuple => (mkV 4 [(next, []); (next + 1, t_content t); (0, [t_scalar t])], next + 2)
   | KEvent => (mkV 9 [], next)
   end.
 (* kinds whose default is produced by a user callable the harness counts *)
 Definition counted (t : tdef) : bool :=
-  match t_kind t with KFactory | KMethod => true | _ => false end.
+  match t_kind t with KFactory | KMethod | KMethodInt => true | _ => false end.
 
 (* class traits that come with a "<name>_items" event trait (handler.has_items) *)
 Definition has_items (k : kind) : bool :=
@@ -143,12 +147,15 @@ Definition mutate_value (v : value) (x : Z) : value :=
   | 1, (o, c) :: r => mkV 1 ((o, c ++ [x]) :: r)                       (* list.append(x) *)
   | 5, (o, c) :: r => mkV 5 ((o, c ++ [x]) :: r)
   | 2, (o, c) :: r => mkV 2 ((o, c ++ [x; x]) :: r)                    (* d[x] = x, x a new key *)
+  | 6, (o, c) :: r => mkV 6 ((o, c ++ [x; x]) :: r)
   | 3, (o, c) :: r => mkV 3 ((o, insert_sorted x c) :: r)              (* s.add(x) *)
   | 4, p :: (o, c) :: r => mkV 4 (p :: (o, c ++ [x]) :: r)             (* t[0].append(x) *)
   | _, _ => v
   end.
 
 Definition error_value : value := mkV 9 [].
+(* shapes that compare equal in Python when their contents do *)
+Definition shape_class (s : Z) : Z := if s =? 5 then 1 else if s =? 6 then 2 else s.
 
 Section Step.
   Variable w : world.
@@ -165,13 +172,14 @@ Section Step.
   (* the handlers a change of name n on this instance reaches, in call order *)
   Definition hids (ins : inst) (t : tdef) (n : Z) : list Z :=
     (if t_static t then [0] else [])
-    ++ map snd (filter (fun p => fst p =? n) (i_regs ins)).
+    ++ map snd (filter (fun p => fst p =? n) (i_regs ins))
+    ++ map snd (filter (fun p => fst p =? any_name) (i_regs ins)).     (* tnotifiers, then onotifiers *)
 
   (* call_notifiers + the wrappers' filter (trait_notifiers.py l.658): old = None is Uninitialized *)
-  Definition notify (hs : list Z) (n : Z) (old : option (list Z)) (new : list Z) : list logent :=
+  Definition notify (hs : list Z) (n : Z) (old : option (list Z)) (same : bool) (new : list Z) : list logent :=
     match old with
     | None => []
-    | Some o => if zlist_eqb o new then [] else map (fun h => (h, n, o, new)) hs
+    | Some o => if same then [] else map (fun h => (h, n, o, new)) hs     (* equality comparison mode: old != new *)
     end.
 
   (* get_trait(obj, n, 2): clone the class trait into the instance traits dict unless present *)
@@ -186,9 +194,37 @@ Section Step.
     let '(v, next') := default_value t (w_next w) in
     (mkI (i_cls ins) (i_dict ins ++ [(n, v)]) (i_itraits ins)
          (if counted t then bump n (i_calls ins) else i_calls ins)
-         (i_log ins ++ notify (hids ins t n) n None (vcontent v))
+         (i_log ins ++ notify (hids ins t n) n None false (vcontent v))
          (i_regs ins),
      v, next').
+
+  (* A TraitListObject whose "<n>_items" event is not a trait yet gets it added on the instance when it
+     first fires (trait_items_event -> add_trait), which also fires trait_added. *)
+  Definition items_fix (ins : inst) (n : Z) (v : value) (its : list (Z * tdef)) : list (Z * tdef) :=
+    if (v_shape v =? 5)
+       && negb (match alookup n (class_of ins) with Some ct => has_items (t_kind ct) | None => false end) then
+      match alookup (items_name n) its with
+      | Some _ => its
+      | None =>
+          let its1 := its ++ [(items_name n, mkT KEvent [] 0 0 0 false)] in
+          match alookup trait_added its1, alookup trait_added (class_of ins) with
+          | None, Some ta => its1 ++ [(trait_added, ta)]
+          | _, _ => its1
+          end
+      end
+    else its.
+
+  (* With an object-level handler the items event of a Trait{List,Dict,Set}Object reaches a wrapper, whose
+     _change_accepted calls object._trait("<n>_items", 2): the items trait is cloned into the instance. *)
+  Definition fires_items (v : value) : bool := (v_shape v =? 3) || (v_shape v =? 5) || (v_shape v =? 6).
+  Definition has_any (ins : inst) : bool := existsb (fun p => fst p =? any_name) (i_regs ins).
+  Definition any_fix (ins : inst) (n : Z) (v : value) (its : list (Z * tdef)) : list (Z * tdef) :=
+    if fires_items v && has_any ins then
+      match alookup (items_name n) its with
+      | Some _ => its
+      | None => its ++ [(items_name n, mkT KEvent [] 0 0 0 false)]
+      end
+    else its.
 
   (* one operation on instance [ins]: new instance view, returned value, next oid *)
   Definition step_inst (ins : inst) (o : op) : inst * value * Z :=
@@ -214,54 +250,47 @@ Section Step.
                  mkV 0 [], next')
             | _ =>
                 (* old = __dict__ value, else default_value_for (stored, then overwritten) *)
-                let '(oldc, calls') :=
+                let '(olds, oldc, calls') :=
                   match alookup n (i_dict ins) with
-                  | Some ov => (vcontent ov, i_calls ins)
-                  | None => (vcontent (fst (default_value t 0)),
+                  | Some ov => (v_shape ov, vcontent ov, i_calls ins)
+                  | None => (v_shape (fst (default_value t 0)), vcontent (fst (default_value t 0)),
                              if counted t then bump n (i_calls ins) else i_calls ins)
                   end in
+                (* Python equality of old and new: same kind of container (a TraitListObject equals a list with
+                   the same items, a list never equals an int) and same contents *)
+                let same := (shape_class olds =? shape_class (v_shape v)) && zlist_eqb oldc (vcontent v) in
                 (* C: changed = (old_value != value) — pointer comparison: a scalar equal to the old one is
                    the same object, a new container never is; the wrappers then filter by equality and
                    _change_accepted calls object._trait(name, 2), which clones the trait *)
-                let called := negb ((v_shape v =? 0) && zlist_eqb oldc (vcontent v)) in
+                let called := negb ((v_shape v =? 0) && same) in
                 (mkI (i_cls ins) (aset n v (i_dict ins))
                      (if called then ensure_itrait ins n t else i_itraits ins)
                      calls'
-                     (i_log ins ++ (if called then notify hs n (Some oldc) (vcontent v) else []))
+                     (i_log ins ++ (if called then notify hs n (Some oldc) same (vcontent v) else []))
                      (i_regs ins),
                  mkV 0 [], next')
             end
         end
     | Mutate _ n x =>
-        (* a TraitListObject whose "<n>_items" event is not a trait yet gets it added on the instance when it
-           first fires (trait_items_event -> add_trait), which also fires trait_added *)
-        let items_fix (v : value) (its : list (Z * tdef)) : list (Z * tdef) :=
-          if (v_shape v =? 5)
-             && negb (match alookup n (class_of ins) with Some ct => has_items (t_kind ct) | None => false end) then
-            match alookup (items_name n) its with
-            | Some _ => its
-            | None =>
-                let its1 := its ++ [(items_name n, mkT KEvent [] 0 0 0 false)] in
-                match alookup trait_added its1, alookup trait_added (class_of ins) with
-                | None, Some ta => its1 ++ [(trait_added, ta)]
-                | _, _ => its1
-                end
-            end
-          else its in
         match alookup n (i_dict ins) with
         | Some v =>
-            (mkI (i_cls ins) (aset n (mutate_value v x) (i_dict ins)) (items_fix v (i_itraits ins)) (i_calls ins)
-                 (i_log ins) (i_regs ins), mkV 0 [], w_next w)
+            (mkI (i_cls ins) (aset n (mutate_value v x) (i_dict ins)) (any_fix ins n v (items_fix ins n v (i_itraits ins)))
+                 (i_calls ins) (i_log ins) (i_regs ins), mkV 0 [], w_next w)
         | None =>
             match resolve ins n with
             | None => (ins, error_value, w_next w)
             | Some t =>
                 let '(ins', v, next') := materialise ins n t in
-                (mkI (i_cls ins') (aset n (mutate_value v x) (i_dict ins')) (items_fix v (i_itraits ins'))
+                (mkI (i_cls ins') (aset n (mutate_value v x) (i_dict ins'))
+                     (any_fix ins n v (items_fix ins n v (i_itraits ins')))
                      (i_calls ins') (i_log ins') (i_regs ins'), mkV 0 [], next')
             end
         end
     | Register _ n hid via_observe =>
+        if n =? any_name then                      (* self._notifiers(True).append(wrapper) *)
+          (mkI (i_cls ins) (i_dict ins) (i_itraits ins) (i_calls ins) (i_log ins) (i_regs ins ++ [(n, hid)]),
+           mkV 0 [], w_next w)
+        else
         match resolve ins n with
         | None => (ins, error_value, w_next w)
         | Some t =>
